@@ -92,9 +92,9 @@ def apply_live(edit, objs):
 def inverse(edit, spec_before):
     O = spec_before["objects"]
     if edit["op"] == "set":
-        return {"op": "set", "obj": edit["obj"], "attr": edit["attr"], "value": copy.deepcopy(O[edit["obj"]]["params"][edit["attr"]])}
+        return {"op": "set", "obj": edit["obj"], "attr": edit["attr"], "value": copy.deepcopy(O[edit["obj"]]["params"].get(edit["attr"], ["none"]))}
     if edit["op"] == "group":
-        return {"op": "group", "changes": [{"obj": c["obj"], "attr": c["attr"], "value": copy.deepcopy(O[c["obj"]]["params"][c["attr"]])}
+        return {"op": "group", "changes": [{"obj": c["obj"], "attr": c["attr"], "value": copy.deepcopy(O[c["obj"]]["params"].get(c["attr"], ["none"]))}
                                            for c in edit["changes"]]}
     if edit["op"] == "list":
         return {"op": "set", "obj": edit["obj"], "attr": edit["attr"], "value": copy.deepcopy(O[edit["obj"]]["params"][edit["attr"]])}
